@@ -36,6 +36,13 @@ type vfLimitCase struct {
 	Compression int32  `json:"compression"`
 	Stream      string `json:"stream"`      // unary, client-stream
 	Zero        bool   `json:"zeroPadding"` // highly compressible padding
+	// GRPCImpl: the server is the grpc-go reference server (gRPC and gRPC-Web only), which the runner also starts in-process
+	GRPCImpl bool `json:"grpcImpl,omitempty"`
+}
+
+func vfLimitGRPCServer(limit int, protocol int32) (*verifsrv.Server, error) {
+	return verifsrv.CachedWith(fmt.Sprintf("c19-grpc-%d-%d", limit, protocol), verifsrv.StartGRPC, &conformancev1.ServerCompatRequest{Protocol: conformancev1.Protocol(protocol),
+		HttpVersion: conformancev1.HTTPVersion_HTTP_VERSION_2, MessageReceiveLimit: uint32(limit)}, 1500)
 }
 
 func vfLimitServer(limit int) (*verifsrv.Server, error) {
@@ -84,6 +91,11 @@ func vfLimitServerCheck(c vfLimitCase) error {
 		c.Zero = true
 	}
 	srv, err := vfLimitServer(c.Limit)
+	if c.GRPCImpl && (c.Protocol == 2 || c.Protocol == 3) && c.Compression <= 2 && c.Stream != "unary-json-direct" {
+		srv, err = vfLimitGRPCServer(c.Limit, c.Protocol)
+	} else {
+		c.GRPCImpl = false
+	}
 	if err != nil {
 		return nil // environment problem, not a verdict
 	}
@@ -255,12 +267,16 @@ func TestVerifC19LimitServer(t *testing.T) {
 				Limit:    rapid.SampledFrom([]int{1024, 1024, 200 * 1024, 3000, 70000}).Draw(t, "limit"),
 				Delta:    rapid.SampledFrom([]int{-1, 0, 0, 1, 1, 2, -7, 50}).Draw(t, "delta"),
 				Protocol: int32(rapid.IntRange(1, 3).Draw(t, "protocol")), Compression: int32(rapid.IntRange(1, 6).Draw(t, "compression")),
-				Stream: rapid.SampledFrom([]string{"unary", "unary", "client-stream", "server-stream", "bidi-half-first", "bidi-half-later", "bidi-full-first", "unary-json-direct"}).Draw(t, "stream"), Zero: rapid.Bool().Draw(t, "zero"),
+				Stream: rapid.SampledFrom([]string{"unary", "unary", "client-stream", "server-stream", "bidi-half-first", "bidi-half-later", "bidi-full-first", "unary-json-direct"}).Draw(t, "stream"), Zero: rapid.Bool().Draw(t, "zero"), GRPCImpl: rapid.IntRange(0, 2).Draw(t, "grpcImpl") == 0,
 			}
 		},
 		Check: vfLimitServerCheck,
 		Classify: func(c vfLimitCase) ([]string, bool) {
-			return []string{fmt.Sprintf("delta%+d", c.Delta), conformancev1.Compression(c.Compression).String()}, c.Delta >= 0 && c.Delta <= 1 && c.Compression >= 2
+			cl := []string{fmt.Sprintf("delta%+d", c.Delta), conformancev1.Compression(c.Compression).String()}
+			if c.GRPCImpl && (c.Protocol == 2 || c.Protocol == 3) && c.Compression <= 2 && c.Stream != "unary-json-direct" {
+				cl = append(cl, "grpc-go-server")
+			}
+			return cl, c.Delta >= 0 && c.Delta <= 1 && c.Compression >= 2
 		},
 	})
 }
